@@ -1,28 +1,231 @@
 /-
-C39 — ICP, HTCP and SNMP listeners tolerate arbitrary datagrams (under construction: first theorem only).
+C39 — ICP, HTCP and SNMP listeners tolerate arbitrary datagrams.
+
+"No datagram received on an enabled ICP, HTCP or SNMP port makes Squid perform an out-of-bounds access, use freed memory,
+abort, or stop serving HTTP."
+
+Property theorems only.  Models: `SquidModel.Udp.Icp` (icpHandleUdp, icpHandleIcpV2/V3, icpGetUrl), `SquidModel.Udp.Htcp`
+(htcpHandleMsg, htcpHandleTst*/Clr up to and including htcpUnpackSpecifier/Detail), `SquidModel.Udp.Asn1` + `Snmp`
+(asn_parse_*, snmp_msg_Decode, snmp_pdu_decode, snmp_var_DecodeVarBind = everything snmpDecodePacket runs before the
+ACL check).  Every model function reports the highest buffer offset it touches; the theorems bound it for *every*
+datagram and every content of the memory around it.  Not covered by theorems (harness / end-to-end run only): what the
+handlers do after decoding (URL parsing, ACLs, store lookups, replies), heap lifetime (use after free).
+
+The statement is FALSE for SNMP in the tree as found: `snmp_no_oob_counterexample_4095 / _4093`.  What holds:
+`snmp_no_oob_partial` (datagrams of at most snmpRequestSize - 4 octets), and the full statement for the tree with
+notes/fixes/C39-asn-parse-overread.diff (`snmp_no_oob_fixed`).  `Gen.UdpLimits.asnChecksRoomFirst` says which tree is staged.
 -/
-import SquidModel.Udp.Snmp
-import SquidModel.Udp.Icp
-import SquidModel.Udp.Htcp
+import SquidModel.Udp.SnmpLemmas
+import SquidModel.Udp.IcpHtcpLemmas
 
 namespace SquidModel.C39
-open SquidModel.Udp
+open SquidModel.Udp Gen.UdpLimits
 
-/-- `asn_parse_length` never looks further than the count octet and the `sizeof(int)` octets behind it. -/
-theorem parseLength_hi_le (fx : Bool) (m : Mem) (p room : Nat) :
-    (parseLength fx m p room).hi ≤ p + 1 + Gen.UdpLimits.sizeofInt := by
-  unfold parseLength
-  split
-  · simp [T.fail]
-  · simp only []
-    split
-    · split
-      · simp [T.fail]
-      · split
-        · simp [T.fail]
-        · split
-          · simp [T.fail]
-          · simp [T.ok]
-    · simp [T.ok]
+/-! ## SNMP -/
+
+/-- Tree as found, any memory content behind the datagram: the decoder never looks further than 6 octets
+(`2 + sizeof(int)`: identifier, count octet, four length octets) beyond the end of the datagram. -/
+theorem snmp_reads_at_most_six_beyond (m : Mem) (len : Nat) : (msgDecode false m len).hi ≤ len + 2 + sizeofInt :=
+  (msgDecode_spec (hdrOK_general m len)).1
+
+/-- Tree as found, the two octets behind the datagram are zero: at most 4 octets beyond the end
+(the long-form length octets announced by the last octet of the datagram). -/
+theorem snmp_reads_at_most_four_beyond_zeros (m : Mem) (len : Nat) (z0 : rd m len = 0) (z1 : rd m (len + 1) = 0) :
+    (msgDecode false m len).hi ≤ len + sizeofInt :=
+  (msgDecode_spec (hdrOK_zero m len z0 z1)).1
+
+/-- Fixed tree: nothing beyond the datagram is touched, whatever the memory holds. -/
+theorem snmp_reads_nothing_beyond_fixed (m : Mem) (len : Nat) : (msgDecode true m len).hi ≤ len :=
+  (msgDecode_spec (hdrOK_fixed m len)).1
+
+/-- FULL STATEMENT (false for the tree as found, see the counterexamples):
+  `∀ dg tail, (msgDecode false (snmpMem dg tail).1 (snmpMem dg tail).2).hi ≤ snmpRequestSize`.
+Proved part: datagrams that leave at least four octets of snmpHandleUdp's zeroed buffer unused are decoded without any
+access outside the buffer, whatever lies behind the buffer. -/
+theorem snmp_no_oob_partial (dg tail : Bytes) (h : dg.length + sizeofInt ≤ snmpRequestSize) :
+    (msgDecode false (snmpMem dg tail).1 (snmpMem dg tail).2).hi ≤ snmpRequestSize := by
+  have s4 := sizeofInt_eq
+  have hN := snmpRequestSize_eq
+  have hl := snmpMem_len dg tail
+  have hlen : (snmpMem dg tail).2 = dg.length := by rw [hl]; omega
+  have z0 := rd_snmpMem_slack dg tail (snmpMem dg tail).2 (Nat.le_refl _) (by omega)
+  have z1 := rd_snmpMem_slack dg tail ((snmpMem dg tail).2 + 1) (by omega) (by omega)
+  have := snmp_reads_at_most_four_beyond_zeros _ _ z0 z1
+  omega
+
+/-- the datagram of the 4095-octet witness: GetRequest, community "public", a variable binding with a 4029-octet string and a
+last variable binding that ends after its name -/
+def witness4095 : Bytes :=
+  [0x30, 0x82, 0x0f, 0xfb, 0x02, 0x01, 0x00, 0x04, 0x06, 0x70, 0x75, 0x62, 0x6c, 0x69, 0x63, 0xa0, 0x82, 0x0f, 0xec, 0x02, 0x01, 0x01,
+   0x02, 0x01, 0x00, 0x02, 0x01, 0x00, 0x30, 0x82, 0x0f, 0xdf, 0x30, 0x82, 0x0f, 0xcd, 0x06, 0x0a, 0x2b, 0x06, 0x01, 0x04, 0x01, 0x9b,
+   0x27, 0x01, 0x01, 0x00, 0x04, 0x82, 0x0f, 0xbd]
+  ++ List.replicate 4029 0x41 ++
+  [0x30, 0x0c, 0x06, 0x0a, 0x2b, 0x06, 0x01, 0x04, 0x01, 0x9b, 0x27, 0x01, 0x01, 0x00]
+
+/-- a 4093-octet datagram of the same shape whose last variable binding consists of the two octets `30 84`: the second
+announces four length octets -/
+def witness4093 : Bytes :=
+  [0x30, 0x82, 0x0f, 0xf9, 0x02, 0x01, 0x00, 0x04, 0x06, 0x70, 0x75, 0x62, 0x6c, 0x69, 0x63, 0xa0, 0x82, 0x0f, 0xea, 0x02, 0x01, 0x01,
+   0x02, 0x01, 0x00, 0x02, 0x01, 0x00, 0x30, 0x82, 0x0f, 0xdd, 0x30, 0x82, 0x0f, 0xd7, 0x06, 0x0a, 0x2b, 0x06, 0x01, 0x04, 0x01, 0x9b,
+   0x27, 0x01, 0x01, 0x00, 0x04, 0x82, 0x0f, 0xc7]
+  ++ List.replicate 4039 0x41 ++ [0x30, 0x84]
+
+/-- COUNTEREXAMPLE (tree as found): a 4095-octet datagram makes the decoder read the octet behind snmpHandleUdp's buffer. -/
+theorem snmp_no_oob_counterexample_4095 :
+    witness4095.length = 4095 ∧
+    (msgDecode false (snmpMem witness4095 []).1 (snmpMem witness4095 []).2).hi = snmpRequestSize + 1 := by
+  decide +kernel
+
+/-- COUNTEREXAMPLE (tree as found): with a non-zero octet behind the buffer the same datagram makes it read five octets
+behind the buffer. -/
+theorem snmp_no_oob_counterexample_4095_deep :
+    (msgDecode false (snmpMem witness4095 [0x84]).1 (snmpMem witness4095 [0x84]).2).hi = snmpRequestSize + 5 := by
+  decide +kernel
+
+/-- COUNTEREXAMPLE (tree as found): 4093 octets suffice (the octets read behind the buffer are length octets). -/
+theorem snmp_no_oob_counterexample_4093 :
+    witness4093.length = 4093 ∧
+    (msgDecode false (snmpMem witness4093 []).1 (snmpMem witness4093 []).2).hi = snmpRequestSize + 1 := by
+  decide +kernel
+
+/-- FULL STATEMENT for the fixed tree: no datagram, of any length (recvfrom cuts it to snmpRequestSize - 1), makes the
+decoder touch anything outside the datagram, let alone outside the buffer. -/
+theorem snmp_no_oob_fixed (dg tail : Bytes) :
+    (msgDecode true (snmpMem dg tail).1 (snmpMem dg tail).2).hi ≤ (snmpMem dg tail).2 ∧ (snmpMem dg tail).2 < snmpRequestSize := by
+  refine ⟨snmp_reads_nothing_beyond_fixed _ _, ?_⟩
+  have hN := snmpRequestSize_eq
+  rw [snmpMem_len]
+  omega
+
+/-- the staged tree is one of the two variants the theorems speak about -/
+theorem snmp_variant_known : asnChecksRoomFirst = 0 ∨ asnChecksRoomFirst = 1 := by decide
+
+/-- Totality: decoding ends, for every datagram, in a decoded message or in one of squid's own failure classes; the
+iteration budget of the model's variable-binding loop (`AllVarLen`) is never exhausted (class 98 never occurs). -/
+theorem snmp_decode_total (fx : Bool) (m : Mem) (len : Nat) :
+    (∃ msg, (msgDecode fx m len).res = .ok msg) ∨ (∃ e d, (msgDecode fx m len).res = .fail e d ∧ d ≤ 8) := by
+  have H : HdrOK fx m len (len + 2 + sizeofInt) := by
+    cases fx
+    · exact hdrOK_general m len
+    · have h := hdrOK_fixed m len
+      exact ⟨fun p dl hp => Nat.le_trans (h.tl p dl hp) (by omega), fun p dl hp => Nat.le_trans (h.hdr p dl hp) (by omega), by simp; omega⟩
+  cases h : (msgDecode fx m len).res with
+  | ok msg => exact Or.inl ⟨msg, rfl⟩
+  | fail e d => exact Or.inr ⟨e, d, rfl, (msgDecode_spec H).2.1 e d h⟩
+
+/-- Destination buffers: whatever is decoded fits the fixed-size buffers it is decoded into — the community is shorter
+than `Community[128]` (room for the terminator `snmp_msg_Decode` appends), every name and every OBJECT IDENTIFIER value has
+between 1 and MAX_NAME_LEN sub-identifiers (`Var->name`, `TmpBuf`). -/
+theorem snmp_decoded_fits_buffers (fx : Bool) (m : Mem) (len : Nat) (msg : Msg) (h : (msgDecode fx m len).res = .ok msg) :
+    msg.community.length < communityBuf ∧
+    ∀ v ∈ msg.pdu.vars, 1 ≤ v.name.length ∧ v.name.length ≤ maxNameLen ∧ ∀ o, v.val = .oid o → o.length ≤ maxNameLen := by
+  have H : HdrOK fx m len (len + 2 + sizeofInt) := by
+    cases fx
+    · exact hdrOK_general m len
+    · have h := hdrOK_fixed m len
+      exact ⟨fun p dl hp => Nat.le_trans (h.tl p dl hp) (by omega), fun p dl hp => Nat.le_trans (h.hdr p dl hp) (by omega), by simp; omega⟩
+  exact (msgDecode_spec H).2.2 msg h
+
+/-! ## ICP -/
+
+/-- Every read of icpHandleUdp / icpHandleIcpV2 / icpHandleIcpV3 / icpGetUrl stays inside the datagram, the only store is
+the terminator right behind it, and that octet belongs to the buffer (recvfrom was given one octet less): no access
+outside the receive buffer, for every datagram and every stale buffer content. -/
+theorem icp_no_oob (dg stale : Bytes) :
+    let r := Icp.handle (Icp.icpMem dg stale).1 (Icp.icpMem dg stale).2
+    r.rdHi ≤ (Icp.icpMem dg stale).2 ∧ r.wrHi ≤ (Icp.icpMem dg stale).2 + 1 ∧ (Icp.icpMem dg stale).2 + 1 ≤ icpBufSize := by
+  intro r
+  have b := Icp.handle_bounds (Icp.icpMem dg stale).1 (Icp.icpMem dg stale).2
+  have l := Icp.icpMem_len dg stale
+  exact ⟨b.1, b.2.1, by omega⟩
+
+/-- The buffer is changed by nothing but that terminator. -/
+theorem icp_writes_only_terminator (m : Mem) (len : Nat) :
+    (Icp.handle m len).mem = m ∨ (Icp.handle m len).mem = m.set len 0 :=
+  (Icp.handle_bounds m len).2.2
+
+/-- A URL handed on (to icpGetRequest or neighborsUdpAck) is exactly the rest of the datagram behind the header (and the
+requester address of a query) up to its last octet, which is NUL, and contains no NUL itself: the C string the callee
+walks ends inside the datagram. -/
+theorem icp_url_is_the_payload (m : Mem) (len : Nat) (u : Bytes)
+    (h : (Icp.handle m len).outcome = .query u ∨ (Icp.handle m len).outcome = .reply u) :
+    ∃ off, (off = icpHeaderSize ∨ off = icpHeaderSize + 4) ∧ off + u.length + 1 = len ∧
+      ∀ k, k < u.length → rd (m.set len 0) (off + k) ≠ 0 :=
+  Icp.handle_url h
+
+/-- The reply built for such a URL — even with every octet escaped to three by rfc1738_escape — has a length that fits
+the 16-bit length field `CreateMessage` stores it in. -/
+theorem icp_reply_length_fits (m : Mem) (len : Nat) (u : Bytes) (hl : len < icpBufSize)
+    (h : (Icp.handle m len).outcome = .query u ∨ (Icp.handle m len).outcome = .reply u) :
+    Icp.replyLength true (3 * u.length) < 65536 := by
+  obtain ⟨off, ho, hlen, _⟩ := Icp.handle_url h
+  have : icpBufSize = 16384 := by decide
+  have : icpHeaderSize = 20 := by decide
+  unfold Icp.replyLength
+  simp only [↓reduceIte]
+  omega
+
+/-! ## HTCP -/
+
+/-- Every read of htcpHandleMsg, the TST/CLR handlers and htcpUnpackSpecifier / htcpUnpackDetail stays inside the
+datagram; stores reach at most the octet right behind it, which belongs to the buffer: no access outside the receive
+buffer, for every datagram, every stale buffer content and either state of the query table. -/
+theorem htcp_no_oob (dg stale : Bytes) (matchQuery : Bool) :
+    let s := (Htcp.handleMsg (Htcp.htcpMem dg stale).1 (Htcp.htcpMem dg stale).2 matchQuery).1
+    s.rdHi ≤ (Htcp.htcpMem dg stale).2 ∧ s.wrHi ≤ (Htcp.htcpMem dg stale).2 + 1 ∧ (Htcp.htcpMem dg stale).2 + 1 ≤ htcpBufSize := by
+  intro s
+  have b := (Htcp.handleMsg_spec (Htcp.htcpMem dg stale).1 (Htcp.htcpMem dg stale).2 matchQuery).1
+  have l := Htcp.htcpMem_len dg stale
+  exact ⟨b.rd, b.wr, by omega⟩
+
+/-- The in-place unpacking only ever writes zeros (string terminators): every octet of the buffer afterwards is what it
+was or zero, and the buffer keeps its size. -/
+theorem htcp_writes_only_terminators (m : Mem) (len : Nat) (matchQuery : Bool) :
+    (Htcp.handleMsg m len matchQuery).1.mem.length = m.length ∧
+    ∀ i, (Htcp.handleMsg m len matchQuery).1.mem.getD i 0 = m.getD i 0 ∨ (Htcp.handleMsg m len matchQuery).1.mem.getD i 0 = 0 :=
+  (Htcp.handleMsg_spec m len matchQuery).2
+
+/-! ## the models are not vacuous -/
+
+/-- GetRequest for 1.3.6.1.4.1.3495.1.1.1.0, community "public", request-id 0x1234567 -/
+def sampleGet : Bytes :=
+  [0x30, 0x2b, 0x02, 0x01, 0x00, 0x04, 0x06, 0x70, 0x75, 0x62, 0x6c, 0x69, 0x63, 0xa0, 0x1e, 0x02, 0x04, 0x01, 0x23, 0x45, 0x67,
+   0x02, 0x01, 0x00, 0x02, 0x01, 0x00, 0x30, 0x10, 0x30, 0x0e, 0x06, 0x0a, 0x2b, 0x06, 0x01, 0x04, 0x01, 0x9b, 0x27, 0x01, 0x01, 0x00, 0x05, 0x00]
+
+example : (msgDecode false sampleGet sampleGet.length).hi = sampleGet.length := by decide +kernel
+example : (msgDecode false sampleGet sampleGet.length).val?.map (fun msg => msg.pdu.reqid) = some 19088743 := by decide +kernel
+example : (msgDecode false sampleGet sampleGet.length).val?.map (fun msg => msg.community) = some [0x70, 0x75, 0x62, 0x6c, 0x69, 0x63] := by
+  decide +kernel
+example : (msgDecode false sampleGet sampleGet.length).val?.map (fun msg => msg.pdu.vars.map (·.name)) = some [[1, 3, 6, 1, 4, 1, 3495, 1, 1, 0]] := by
+  decide +kernel
+example : (msgDecode false sampleGet sampleGet.length).val?.map (fun msg => (msg.pdu.command, msg.pdu.vars.map (·.type))) = some (0xa0, [5]) := by
+  decide +kernel
+-- the same datagram cut after the name of the binding: decoding fails and looks two octets beyond the datagram (zeros there)
+example : (msgDecode false (sampleGet.take 43 |>.set 1 0x29 |>.set 14 0x1c |>.set 28 0x0e |>.set 30 0x0c) 43).hi = 45 := by decide +kernel
+-- ... and with the fix it stays inside
+example : (msgDecode true (sampleGet.take 43 |>.set 1 0x29 |>.set 14 0x1c |>.set 28 0x0e |>.set 30 0x0c) 43).hi ≤ 43 := by decide +kernel
+-- a too long OBJECT IDENTIFIER is cut at MAX_NAME_LEN sub-identifiers, not rejected
+example : (parseObjid false ([6, 100] ++ List.replicate 100 1) 0 102 maxNameLen).val?.map (fun r => r.1.length) = some 64 := by
+  decide +kernel
+
+/-- ICP_QUERY (v2) for "http://a/" -/
+def sampleIcp : Bytes :=
+  [1, 2, 0, 34, 0, 0, 0, 7, 0, 0, 0, 0, 0, 0, 0, 0, 0, 0, 0, 0, 0, 0, 0, 0, 0x68, 0x74, 0x74, 0x70, 0x3a, 0x2f, 0x2f, 0x61, 0x2f, 0]
+
+example : (Icp.handle (Icp.icpMem sampleIcp []).1 34).outcome = .query [0x68, 0x74, 0x74, 0x70, 0x3a, 0x2f, 0x2f, 0x61, 0x2f] := by decide +kernel
+example : (Icp.handle (Icp.icpMem (sampleIcp.set 33 0x41) []).1 34).outcome = .queryBadUrl .unterminated := by decide +kernel
+example : (Icp.handle (Icp.icpMem (sampleIcp.set 28 0) []).1 34).outcome = .queryBadUrl .embedded := by decide +kernel
+example : (Icp.handle (Icp.icpMem (sampleIcp.set 1 9) []).1 34).outcome = .ignoreVersion := by decide +kernel
+
+/-- HTCP TST request (minor 1, F1 set): GET http://a/ 1.1, no headers, no AUTH -/
+def sampleHtcp : Bytes :=
+  [0, 35, 0, 1, 0, 31, 16, 2, 0, 0, 0, 5, 0, 3, 71, 69, 84, 0, 9, 104, 116, 116, 112, 58, 47, 47, 97, 47, 0, 3, 49, 46, 49, 0, 0]
+
+-- the last terminator lands on the octet behind the datagram (stale 0xff there), the others on the high octets of length fields
+example : (Htcp.handleMsg (Htcp.htcpMem sampleHtcp [0xff]).1 35 false).1.wrHi = 36 := by decide +kernel
+example : Htcp.changed (Htcp.htcpMem sampleHtcp [0xff]).1 (Htcp.handleMsg (Htcp.htcpMem sampleHtcp [0xff]).1 35 false).1.mem 0 = [35] := by
+  decide +kernel
+example : (Htcp.handleMsg (Htcp.htcpMem sampleHtcp [0xff]).1 35 false).1.toks.reverse
+    = ["dlen=31", "op=1", "resp=0", "f1=1", "rr=0", "id=5", "left=0"] := by decide +kernel
 
 end SquidModel.C39
